@@ -78,7 +78,8 @@ func (a *ArgMax) Apply(inputs []tensor.Tensor) ([]tensor.Tensor, error) {
 	// the original shape was (2, 4, 5), the reduced shape would be (2, 5).
 	// If keepDims is true, that shape should be (2, 1, 5).
 	if a.keepDims {
-		newShape := inputs[0].Shape()
+		// Work on a copy: Shape() returns the shape slice of the input tensor itself.
+		newShape := inputs[0].Shape().Clone()
 		newShape[axis] = 1
 
 		if err := reduced.Reshape(newShape...); err != nil {
